@@ -1387,6 +1387,26 @@ pub fn gen_body(
     (groups, g.out, stats)
 }
 
+/// A custom section; a name starting with U+0001 is written without that
+/// character and with its length as a padded two-byte LEB.
+fn emit_custom(m: &mut we::Module, name: &str, data: &[u8]) {
+    if let Some(real) = name.strip_prefix('\u{1}') {
+        let nb = real.as_bytes();
+        if nb.len() < 128 {
+            let mut payload = vec![nb.len() as u8 | 0x80, 0x00];
+            payload.extend_from_slice(nb);
+            payload.extend_from_slice(data);
+            m.section(&we::RawSection { id: 0, data: &payload });
+            return;
+        }
+    }
+    let name = name.strip_prefix('\u{1}').unwrap_or(name);
+    m.section(&we::CustomSection {
+        name: name.into(),
+        data: data.into(),
+    });
+}
+
 pub fn encode_items(f: &mut we::Function, items: &[Item]) {
     use we::reencode::Reencode;
     let mut r = we::reencode::RoundtripReencoder;
@@ -1564,11 +1584,18 @@ fn gen_table(ch: &mut Ch, feats: u32, imported: bool, exec: bool) -> TableInfo {
     let t64 = feats & feat::MEMORY64 != 0 && ch.chance(1, 5);
     let _ = exec;
     let initial = ch.below(9) as u64;
-    let max = if ch.bool() {
+    let mut max = if ch.bool() {
         Some(initial + ch.below(6) as u64)
     } else {
         None
     };
+    if !exec && max.is_some() && ch.chance(1, 6) {
+        max = Some(if t64 {
+            *ch.pick(&[0xffff_ffffu64, 1 << 32, 1 << 40])
+        } else {
+            *ch.pick(&[0xffff_fffeu64, 0xffff_ffff])
+        });
+    }
     TableInfo {
         elem,
         t64,
@@ -1585,11 +1612,20 @@ fn gen_mem(ch: &mut Ch, feats: u32, imported: bool, exec: bool) -> MemInfo {
     if exec && initial == 0 && ch.chance(7, 8) {
         initial = 1;
     }
-    let max = if shared || ch.bool() {
+    let mut max = if shared || ch.bool() {
         Some(initial + ch.below(3) as u64)
     } else {
         None
     };
+    // limits at and beyond the 32-bit boundaries (never in the exec profile,
+    // whose interpreter would have to honour them)
+    if !exec && max.is_some() && ch.chance(1, 6) {
+        max = Some(if m64 {
+            *ch.pick(&[65536u64, 65537, 1 << 32, (1 << 48) - 1, 1 << 48])
+        } else {
+            *ch.pick(&[65535u64, 65536])
+        });
+    }
     MemInfo {
         m64,
         shared,
@@ -1898,7 +1934,15 @@ pub fn generate(data: &[u8], cfg: &GenCfg) -> Generated {
     let n_data = if env.mems.is_empty() && !bulk { 0 } else { ch.below(5) };
     for _ in 0..n_data {
         let len = ch.below(12);
-        let bytes = ch.bytes(len);
+        let mut bytes = ch.bytes(len);
+        if ch.chance(1, 8) {
+            // a long run of zero bytes inside the payload
+            let n = 16 + ch.below(24);
+            let mut b = vec![ch.byte() | 1];
+            b.extend(std::iter::repeat(0).take(n));
+            b.push(ch.byte() | 1);
+            bytes = b;
+        }
         let passive = bulk && (env.mems.is_empty() || ch.chance(1, 3));
         let mode = if passive {
             DataModeG::Passive
@@ -2041,9 +2085,17 @@ pub fn generate(data: &[u8], cfg: &GenCfg) -> Generated {
         ];
         for _ in 0..n {
             let slot = ch.below(14);
-            let name = ch.pick(&names).to_string();
+            let mut name = ch.pick(&names).to_string();
             let len = ch.below(10);
             let data = ch.bytes(len);
+            // names whose length needs a two-byte LEB, and short names whose
+            // length is written as a padded (non-minimal) LEB: the marker
+            // character is stripped again by `emit_custom`
+            if ch.chance(1, 12) {
+                name = format!("{}{}", name, "x".repeat(128 + ch.below(80)));
+            } else if ch.chance(1, 12) {
+                name = format!("\u{1}{}", name);
+            }
             customs.push((slot, name, data));
         }
     }
@@ -2064,10 +2116,7 @@ pub fn generate(data: &[u8], cfg: &GenCfg) -> Generated {
     let put_customs = |m: &mut we::Module, slot: usize, customs: &Vec<(usize, String, Vec<u8>)>| {
         for (s, n, d) in customs {
             if *s == slot {
-                m.section(&we::CustomSection {
-                    name: n.as_str().into(),
-                    data: d.as_slice().into(),
-                });
+                emit_custom(m, n, d);
             }
         }
     };
@@ -2335,10 +2384,7 @@ pub fn generate(data: &[u8], cfg: &GenCfg) -> Generated {
     // customs whose slot is beyond what exists go last
     for (s, n, d) in &customs {
         if *s > slot {
-            m.section(&we::CustomSection {
-                name: n.as_str().into(),
-                data: d.as_slice().into(),
-            });
+            emit_custom(&mut m, n, d);
         }
     }
 
